@@ -9,7 +9,11 @@ def is_any_dimension(factor: Expr) -> bool:
     absorbing nature.
     """
 
-    return factor in (S.Zero, S.Infinity, S.NegativeInfinity, S.NaN)
+    if factor in (S.Zero, S.Infinity, S.NegativeInfinity, S.NaN):
+        return True
+
+    # a floating-point zero does not compare equal to `S.Zero`
+    return getattr(factor, "is_zero", None) is True
 
 
 def is_number(value: Any) -> bool:
